@@ -49,6 +49,15 @@ claim('C06', 'deviation-bounded exhaustive enumeration; JSON writer output judge
       'forms, version-appropriate Remove spelling, array for lists of grids); the recovered grid must equal the grid that was built.',
       RT_NOTE % ', ref/refjson.py (DESIGN.md Appendix B)', 'DESIGN.md 5 C06')
 
+claim('C20', 'exhaustive enumeration of operator x operand pair x operand shape against the same expression on bare values',
+      'Complete product of 13 arithmetic/bitwise + 6 comparison operators x 17^2 boundary operands (zeros, negatives, 2^62, bool, tiny, huge, '
+      'inf, nan) x 6 shapes (Quantity left, right, both with same / different / no unit) x units, 3-argument pow, 7 unary operators and '
+      'conversions; the result must be identical in type and value (NaN- and signed-zero-aware) or raise the same exception class as the bare '
+      'expression; comparisons across differing units must raise TypeError.',
+      'Oracle is the same Python expression on the bare values in the same interpreter. int**int with exponent > 64 and int<<int > 4096 are '
+      'skipped (the bare expression does not terminate). hash() and bool() are not part of the statement.',
+      'DESIGN.md 5 C20')
+
 
 def main():
     props = [json.loads(l) for l in open(os.path.join(HERE, 'properties.jsonl'))]
